@@ -236,6 +236,7 @@ def run(ctx):
         n_general, n_loopfree = [int(x) for x in env_n.split(",")]
     gen_cases = c13gen.generate(ctx.rng.fork("generated"), n_general, n_loopfree, inputs_per_prog=ctx.scale(2, 4))
     gen_by_name = {c["name"]: c for c in gen_cases}
+    gen_tie_all = set(c["name"] for c in gen_cases[:40])
     programs = hand + corp + [(c["name"], c["src"]) for c in gen_cases]
     passes = LOWERED + RAW
     # quick tier: the single compaction passes other than CompactUnused find nothing to do on a module the lowerer has
@@ -324,8 +325,9 @@ def run(ctx):
             if p in MODELLED:
                 if oof:
                     st["model_out_of_fragment"] += 1
-                elif isgen and pr.get("same") and not ctx.thorough:
-                    pass        # quick tier: the tie is evaluated where the Go pass changed a generated module
+                elif isgen and pr.get("same") and not (ctx.thorough and name in gen_tie_all):
+                    pass        # the tie is evaluated where the Go pass changed a generated module (thorough: and for
+                                # every modelled pass on the first 40 generated programs)
                 else:
                     model_jobs.append({"pass": pass_model_name(p), "ir": L.raw(before, True)})
                     model_jobs.append({"pass": "id", "ir": L.raw(after, True)})
@@ -342,10 +344,13 @@ def run(ctx):
     # ---- C tie
     tie_broken = {}
     dbg('model tie: %d jobs' % len(model_jobs))
-    out = L.run_model_parallel(exe, model_jobs, workers=W)
+    out = L.run_model_parallel(exe, model_jobs, workers=W, lazy=True)
     dbg('model tie done')
     for i, (name, p) in enumerate(model_meta):
         a, b = out[2 * i], out[2 * i + 1]
+        if isinstance(a, L.Lazy) and isinstance(b, L.Lazy) and a.text == b.text and a.text.startswith('{"ok":true'):
+            stats[p]["model_equal"] += 1       # equal output lines: equal `show` and type_use_order (nothing to parse)
+            continue
         if not a.get("ok") or not b.get("ok"):
             tie_broken[(name, p)] = "model tool failed: %s / %s" % (a.get("err"), b.get("err"))
             continue
